@@ -43,6 +43,14 @@ else:
 logger = logging.getLogger(__name__)
 
 
+def _is_docstring_expr(stmt: ast.AST) -> bool:
+    # only a string constant is a docstring: a leading `...` or number is an ordinary statement
+    if not isinstance(stmt, ast.Expr) or not isinstance(stmt.value, StrConst):
+        return False
+    const = stmt.value
+    return isinstance(getattr(const, "value", getattr(const, "s", None)), str)
+
+
 _EMIT_EVENT_TEMPLATE = '{}("{{evt}}", {{node_id}})'.format(EMIT_EVENT)
 _T = TypeVar("_T", bound=ast.AST)
 
@@ -211,11 +219,7 @@ class StatementInserter(ast.NodeTransformer, EmitterMixin):
         else:
             function_guard = None
         docstring: List[ast.AST] = []
-        if (
-            len(fundef_copy_body) > 0
-            and isinstance(fundef_copy_body[0], ast.Expr)
-            and isinstance(fundef_copy_body[0].value, StrConst)
-        ):
+        if len(fundef_copy_body) > 0 and _is_docstring_expr(fundef_copy_body[0]):
             orig_body.pop(0)
             docstring = [fundef_copy_body.pop(0)]
         if len(orig_body) == 0:
@@ -382,7 +386,7 @@ class StatementInserter(ast.NodeTransformer, EmitterMixin):
             return False
         # look at the pristine copy: the expression rewriter may already have wrapped the constant
         stmt_copy = self.orig_to_copy_mapping[id(inner_node)]
-        return isinstance(stmt_copy, ast.Expr) and isinstance(stmt_copy.value, StrConst)
+        return _is_docstring_expr(stmt_copy)
 
     def _handle_stmt(
         self, node: ast.AST, field_name: str, inner_node: ast.stmt
